@@ -33,6 +33,14 @@ pairs in the order of their id texts and orders them itself (``ArgSubst.orderIns
 component instance, is compared as well.  Scenarios may carry an ambient logging configuration (``log``) and a list
 of other scenarios after which they are run again (``again_after``).
 
+Histories (`check_history`): every scenario is also built as ONE live experiment; the argument strings are resolved,
+then batches of file operations (`gen_history` / `apply_file_op`: other contents of the same byte length with the
+modification time kept — in place or through an atomic rename —, set older or renewed; other lengths; removal;
+creation; no change) are applied to the files the :output / :loopoutput references read and the strings are resolved
+again after every batch through both entry points.  Oracle: the value of a reference is the value of the contents its
+file holds AT THAT MOMENT.  Model: ``ArgSubst.resolveRounds`` (lean/St4sd/Model/ArgSubstHistory.lean, driver op
+``history``), theorems in the section History of Props/C10.lean.
+
 Values are not opaque: files are written byte-exact into the working directories (also of the loop instances of a
 real DoWhile, for ``:loopref``/``:loopoutput`` and for ``:ref``/``:output`` through a placeholder), the real
 ``DataReference.resolve`` reads them, the model gets the *raw* contents and computes the value itself
